@@ -173,6 +173,459 @@ Proof. apply parse_frames. Qed.
 Lemma next_json_value_frame r : frame r (snd (next_json_value r)).
 Proof. apply parse_value_frame. Qed.
 
+(* ================= (A') every parser function moves the reader by `next` steps only ================= *)
+Definition step (r : reader) : reader := snd (next r).
+Definition advances (r r' : reader) : Prop := exists k, r' = Nat.iter k step r.
+
+Lemma advances_refl r : advances r r.
+Proof. exists 0%nat. reflexivity. Qed.
+
+Lemma iter_add {A} (f : A -> A) a b x : Nat.iter (a + b) f x = Nat.iter a f (Nat.iter b f x).
+Proof. induction a as [|a IH]; simpl; [reflexivity|]. f_equal. exact IH. Qed.
+
+Lemma advances_trans r1 r2 r3 : advances r1 r2 -> advances r2 r3 -> advances r1 r3.
+Proof. intros [a ->] [b ->]. exists (b + a)%nat. symmetry. apply iter_add. Qed.
+
+Lemma advances_step r : advances r (step r).
+Proof. exists 1%nat. reflexivity. Qed.
+
+Lemma advances_inv (P : reader -> Prop) : (forall r, P r -> P (step r)) ->
+  forall r r', advances r r' -> P r -> P r'.
+Proof.
+  intros Hs r r' [k ->] H. induction k as [|k IH]; [exact H|]. cbn [Nat.iter]. apply Hs, IH.
+Qed.
+
+Lemma next_advances r : advances r (snd (next r)).
+Proof. apply advances_step. Qed.
+
+Lemma peek_advances r : advances r (snd (peek r)).
+Proof. unfold peek. destruct (cur r); [apply advances_refl|apply advances_step]. Qed.
+
+Ltac ad_done :=
+  repeat first [assumption | apply advances_refl | (eapply advances_trans; [|eassumption])].
+
+Ltac ad_case :=
+  lazymatch goal with
+  | |- advances _ ?t => let x := hs t in destruct x; fr_norm
+  end.
+
+Ltac ad_op :=
+  match goal with
+  | |- context [next ?r] => is_var r; fr_pair (next r) (next_advances r)
+  | |- context [peek ?r] => is_var r; fr_pair (peek r) (peek_advances r)
+  end.
+
+Lemma eat_ws_advances fuel : forall r, advances r (eat_ws fuel r).
+Proof.
+  induction fuel as [|f IH]; intros r; cbn [eat_ws]; [apply advances_refl|].
+  ad_op. ad_case; [|ad_done]. ad_case; [|ad_done]. ad_op.
+  match goal with |- advances _ (eat_ws f ?x) => pose proof (IH x) end. ad_done.
+Qed.
+
+Lemma eat_whitespace_advances r : advances r (eat_whitespace r).
+Proof. apply eat_ws_advances. Qed.
+
+Lemma read_digits_f_advances fuel : forall acc r, advances r (snd (read_digits_f fuel acc r)).
+Proof.
+  induction fuel as [|f IH]; intros acc r; cbn [read_digits_f]; [apply advances_refl|].
+  ad_op. ad_case; [|ad_done]. ad_case; [|ad_done]. ad_op.
+  match goal with |- advances _ (snd (read_digits_f f ?a ?x)) => pose proof (IH a x) end. ad_done.
+Qed.
+
+Lemma read_digits_advances acc r : advances r (snd (read_digits acc r)).
+Proof. apply read_digits_f_advances. Qed.
+
+Lemma read_word_advances w : forall r, advances r (snd (read_word w r)).
+Proof.
+  induction w as [|e w IH]; intros r; cbn [read_word].
+  - ad_op. ad_done.
+  - ad_op. ad_case; [|ad_done]. ad_case; [|ad_done].
+    match goal with |- advances _ (snd (read_word w ?x)) => pose proof (IH x) end. ad_done.
+Qed.
+
+Lemma read_hex4_advances n : forall acc r, advances r (snd (read_hex4 n acc r)).
+Proof.
+  induction n as [|n IH]; intros acc r; cbn [read_hex4]; [apply advances_refl|].
+  ad_op. ad_case; [|ad_done]. ad_case; [|ad_done].
+  match goal with |- advances _ (snd (read_hex4 n ?a ?x)) => pose proof (IH a x) end. ad_done.
+Qed.
+
+Lemma read_string_f_advances fuel : forall acc r, advances r (snd (read_string_f fuel acc r)).
+Proof.
+  induction fuel as [|f IH]; intros acc r; cbn [read_string_f]; [apply advances_refl|].
+  ad_op. ad_case; [|ad_done]. ad_case.
+  - ad_op. ad_case; ad_done.
+  - ad_case.
+    + ad_op. ad_case; [|ad_done]. ad_case.
+      * match goal with |- context [read_hex4 ?n ?a ?x] =>
+          fr_pair (read_hex4 n a x) (read_hex4_advances n a x) end.
+        ad_case; [|ad_done]. ad_case; [|ad_done].
+        match goal with |- advances _ (snd (read_string_f f ?a ?x)) => pose proof (IH a x) end. ad_done.
+      * ad_case; [|ad_done].
+        match goal with |- advances _ (snd (read_string_f f ?a ?x)) => pose proof (IH a x) end. ad_done.
+    + match goal with |- advances _ (snd (read_string_f f ?a ?x)) => pose proof (IH a x) end. ad_done.
+Qed.
+
+Lemma read_string_advances r : advances r (snd (read_string r)).
+Proof. apply read_string_f_advances. Qed.
+
+Ltac ad_op2 :=
+  match goal with
+  | |- context [next ?r] => is_var r; fr_pair (next r) (next_advances r)
+  | |- context [peek ?r] => is_var r; fr_pair (peek r) (peek_advances r)
+  | |- context [eat_whitespace ?r] =>
+      is_var r;
+      let H := fresh "A" in pose proof (eat_whitespace_advances r) as H;
+      let r' := fresh "r" in set (r' := eat_whitespace r) in *; clearbody r'; fr_norm
+  | |- context [read_digits ?a ?r] => is_var r; fr_pair (read_digits a r) (read_digits_advances a r)
+  | |- context [read_word ?w ?r] => is_var r; fr_pair (read_word w r) (read_word_advances w r)
+  | |- context [read_string ?r] => is_var r; fr_pair (read_string r) (read_string_advances r)
+  end.
+
+Lemma read_number_advances r : advances r (snd (read_number r)).
+Proof. unfold read_number. repeat first [ad_op2 | ad_case]; ad_done. Qed.
+
+Ltac ad_op3 :=
+  match goal with
+  | |- context [read_number ?r] => is_var r; fr_pair (read_number r) (read_number_advances r)
+  | IH : forall r : reader, advances r (snd (parse_value ?f r)) |- context [parse_value ?f ?r] =>
+      is_var r; fr_pair (parse_value f r) (IH r)
+  | IH : forall acc (r : reader), advances r (snd (parse_items ?f acc r)) |- context [parse_items ?f ?a ?r] =>
+      is_var r; fr_pair (parse_items f a r) (IH a r)
+  | IH : forall acc (r : reader), advances r (snd (parse_members ?f acc r)) |- context [parse_members ?f ?a ?r] =>
+      is_var r; fr_pair (parse_members f a r) (IH a r)
+  end.
+
+Lemma parse_advances : forall fuel,
+  (forall r, advances r (snd (parse_value fuel r))) /\
+  (forall acc r, advances r (snd (parse_items fuel acc r))) /\
+  (forall acc r, advances r (snd (parse_members fuel acc r))).
+Proof.
+  induction fuel as [|f (IHv & IHi & IHm)].
+  - split; [|split]; intros; apply advances_refl.
+  - split; [|split].
+    + intros r. rewrite parse_value_S. fr_norm. repeat first [ad_op2 | ad_op3 | ad_case]; ad_done.
+    + intros acc r. rewrite parse_items_S. fr_norm. repeat first [ad_op2 | ad_op3 | ad_case]; ad_done.
+    + intros acc r. rewrite parse_members_S. fr_norm. repeat first [ad_op2 | ad_op3 | ad_case]; ad_done.
+Qed.
+
+Lemma parse_value_advances fuel r : advances r (snd (parse_value fuel r)).
+Proof. apply parse_advances. Qed.
+Lemma parse_items_advances fuel acc r : advances r (snd (parse_items fuel acc r)).
+Proof. apply parse_advances. Qed.
+Lemma parse_members_advances fuel acc r : advances r (snd (parse_members fuel acc r)).
+Proof. apply parse_advances. Qed.
+Lemma next_json_value_advances r : advances r (snd (next_json_value r)).
+Proof. apply parse_value_advances. Qed.
+
+(* the frame property is one instance *)
+Lemma step_frame r : frame r (step r).
+Proof. apply next_frame. Qed.
+
+Lemma advances_frame r r' : advances r r' -> frame r r'.
+Proof.
+  intros [k ->]. induction k as [|k IH]; [apply frame_refl|]. cbn [Nat.iter].
+  eapply frame_trans; [exact IH|apply step_frame].
+Qed.
+
+(* ================= fuel: every loop consumes input ================= *)
+(* what is left to read: 0 at end of input, else one more than the pending events *)
+Definition m (r : reader) : nat := if eof r then 0%nat else S (length (rest r)).
+Definition inv (r : reader) : Prop := eof r = true -> cur r = None.
+Definition mono (r r' : reader) : Prop := inv r -> inv r' /\ (m r' <= m r)%nat.
+Definition strict (r r' : reader) : Prop := inv r -> eof r = false -> (m r' < m r)%nat.
+
+Lemma mono_refl r : mono r r.
+Proof. intros H. auto. Qed.
+
+Lemma next_mono r : mono r (snd (next r)).
+Proof.
+  unfold mono, inv, m, next. intros H. destruct (eof r) eqn:E; [cbn [snd]; rewrite ?E; auto|].
+  destruct (rest r) as [|[b|] t]; cbn [snd rest eof cur length]; split; auto; try lia; discriminate.
+Qed.
+
+Lemma next_strict r : strict r (snd (next r)).
+Proof.
+  unfold strict, inv, m, next. intros H E. rewrite E.
+  destruct (rest r) as [|[b|] t]; cbn [snd rest eof cur length]; lia.
+Qed.
+
+Lemma peek_mono r : mono r (snd (peek r)).
+Proof. unfold peek. destruct (cur r); [apply mono_refl|apply next_mono]. Qed.
+
+Lemma peek_live r : inv r ->
+  match fst (peek r) with Some b => eof (snd (peek r)) = false /\ cur (snd (peek r)) = Some b | None => True end.
+Proof.
+  unfold inv, peek, next. intros H. destruct (cur r) as [b|] eqn:Ec; cbn [fst snd].
+  - split; [|assumption]. destruct (eof r); [|reflexivity]. specialize (H eq_refl). discriminate.
+  - destruct (eof r); cbn [fst]; [exact I|].
+    destruct (rest r) as [|[b|] t]; cbn [fst snd eof cur]; auto.
+Qed.
+
+Lemma cur_live r b : inv r -> cur r = Some b -> eof r = false.
+Proof. unfold inv. intros H Hc. destruct (eof r); [|reflexivity]. specialize (H eq_refl). congruence. Qed.
+
+Ltac mn_sat :=
+  repeat match goal with
+  | H : mono ?a ?b, Ha : inv ?a |- _ =>
+      let H1 := fresh in let H2 := fresh in destruct (H Ha) as [H1 H2]; clear H
+  | H : strict ?a ?b, Ha : inv ?a, He : eof ?a = false |- _ => specialize (H Ha He)
+  | H : inv ?a -> eof ?b = false /\ cur ?b = Some ?c, Ha : inv ?a |- _ =>
+      let H1 := fresh in let H2 := fresh in destruct (H Ha) as [H1 H2]; clear H
+  end.
+Ltac mn_done := let H0 := fresh in intro H0; mn_sat; split; [assumption | lia].
+
+Ltac mn_pair t lem :=
+  let H := fresh "M" in pose proof lem as H; destruct t as [? ?]; fr_norm.
+Ltac mn_pair2 t lem1 lem2 :=
+  let H1 := fresh "M" in let H2 := fresh "M" in
+  pose proof lem1 as H1; pose proof lem2 as H2; destruct t as [? ?]; fr_norm.
+
+Ltac mn_op :=
+  match goal with
+  | |- context [next ?r] => is_var r; mn_pair2 (next r) (next_mono r) (next_strict r)
+  | |- context [peek ?r] => is_var r; mn_pair2 (peek r) (peek_mono r) (peek_live r)
+  end.
+
+Ltac mn_case :=
+  lazymatch goal with
+  | |- mono _ ?t => let x := hs t in destruct x; fr_norm
+  end.
+
+Lemma eat_ws_mono fuel : forall r, mono r (eat_ws fuel r).
+Proof.
+  induction fuel as [|f IH]; intros r; cbn [eat_ws]; [apply mono_refl|].
+  mn_op. mn_case; [|mn_done]. mn_case; [|mn_done]. mn_op.
+  match goal with |- mono _ (eat_ws f ?x) => pose proof (IH x) end. mn_done.
+Qed.
+
+Lemma eat_whitespace_mono r : mono r (eat_whitespace r).
+Proof. apply eat_ws_mono. Qed.
+
+Lemma read_digits_f_mono fuel : forall acc r, mono r (snd (read_digits_f fuel acc r)).
+Proof.
+  induction fuel as [|f IH]; intros acc r; cbn [read_digits_f]; [apply mono_refl|].
+  mn_op. mn_case; [|mn_done]. mn_case; [|mn_done]. mn_op.
+  match goal with |- mono _ (snd (read_digits_f f ?a ?x)) => pose proof (IH a x) end. mn_done.
+Qed.
+
+Lemma read_digits_mono acc r : mono r (snd (read_digits acc r)).
+Proof. apply read_digits_f_mono. Qed.
+
+Lemma read_word_mono w : forall r, mono r (snd (read_word w r)).
+Proof.
+  induction w as [|e w IH]; intros r; cbn [read_word].
+  - mn_op. mn_done.
+  - mn_op. mn_case; [|mn_done]. mn_case; [|mn_done].
+    match goal with |- mono _ (snd (read_word w ?x)) => pose proof (IH x) end. mn_done.
+Qed.
+
+Lemma read_word_strict w r : strict r (snd (read_word w r)).
+Proof.
+  intros Hi He. destruct w as [|e w]; cbn [read_word].
+  - mn_op. mn_sat. lia.
+  - mn_op. destruct o as [c|]; fr_norm; [|mn_sat; lia].
+    destruct (c =? e); fr_norm; [|mn_sat; lia].
+    pose proof (read_word_mono w r0). mn_sat. lia.
+Qed.
+
+Lemma read_hex4_mono n : forall acc r, mono r (snd (read_hex4 n acc r)).
+Proof.
+  induction n as [|n IH]; intros acc r; cbn [read_hex4]; [apply mono_refl|].
+  mn_op. mn_case; [|mn_done]. mn_case; [|mn_done].
+  match goal with |- mono _ (snd (read_hex4 n ?a ?x)) => pose proof (IH a x) end. mn_done.
+Qed.
+
+Lemma read_string_f_mono fuel : forall acc r, mono r (snd (read_string_f fuel acc r)).
+Proof.
+  induction fuel as [|f IH]; intros acc r; cbn [read_string_f]; [apply mono_refl|].
+  mn_op. mn_case; [|mn_done]. mn_case.
+  - mn_op. mn_case; mn_done.
+  - mn_case.
+    + mn_op. mn_case; [|mn_done]. mn_case.
+      * match goal with |- context [read_hex4 ?n ?a ?x] =>
+          mn_pair (read_hex4 n a x) (read_hex4_mono n a x) end.
+        mn_case; [|mn_done]. mn_case; [|mn_done].
+        match goal with |- mono _ (snd (read_string_f f ?a ?x)) => pose proof (IH a x) end. mn_done.
+      * mn_case; [|mn_done].
+        match goal with |- mono _ (snd (read_string_f f ?a ?x)) => pose proof (IH a x) end. mn_done.
+    + match goal with |- mono _ (snd (read_string_f f ?a ?x)) => pose proof (IH a x) end. mn_done.
+Qed.
+
+Lemma read_string_mono r : mono r (snd (read_string r)).
+Proof. apply read_string_f_mono. Qed.
+
+Lemma read_string_strict r : strict r (snd (read_string r)).
+Proof.
+  intros Hi He. unfold read_string. cbn [read_string_f].
+  pose proof (next_mono r) as M1. pose proof (next_strict r) as M2.
+  destruct (next r) as [o r1]. fr_norm. mn_sat.
+  destruct o as [c|]; fr_norm; [|lia].
+  match goal with |- (m (snd ?t) < _)%nat => assert (Hm : (m (snd t) <= m r1)%nat) end; [|lia].
+  destruct (c =? 34); fr_norm.
+  - pose proof (next_mono r1). destruct (utf8_decode []); fr_norm; mn_sat; lia.
+  - destruct (c =? 92); fr_norm.
+    + pose proof (next_mono r1) as M3. destruct (next r1) as [o2 r2]. fr_norm. mn_sat.
+      destruct o2 as [e|]; fr_norm; [|lia].
+      destruct (e =? 117); fr_norm.
+      * pose proof (read_hex4_mono 4 0 r2) as M4. destruct (read_hex4 4 0 r2) as [o3 r3]. fr_norm. mn_sat.
+        destruct o3 as [u|]; fr_norm; [|lia]. destruct (is_scalar u); fr_norm; [|lia].
+        match goal with |- (m (snd (read_string_f ?f ?a ?x)) <= _)%nat =>
+          pose proof (read_string_f_mono f a x) end. mn_sat. lia.
+      * destruct (assoc_N e escape_table); fr_norm; [|lia].
+        match goal with |- (m (snd (read_string_f ?f ?a ?x)) <= _)%nat =>
+          pose proof (read_string_f_mono f a x) end. mn_sat. lia.
+    + match goal with |- (m (snd (read_string_f ?f ?a ?x)) <= _)%nat =>
+        pose proof (read_string_f_mono f a x) end. mn_sat. lia.
+Qed.
+
+(* ----- numbers, values: monotone, strict, never out of fuel ----- *)
+Ltac mn_pair3 t lem1 lem2 lem3 :=
+  let H1 := fresh "M" in let H2 := fresh "M" in let H3 := fresh "M" in
+  pose proof lem1 as H1; pose proof lem2 as H2; pose proof lem3 as H3; destruct t as [? ?]; fr_norm.
+
+(* head scrutinee of the goals we meet *)
+Ltac g_case :=
+  lazymatch goal with
+  | |- mono _ ?t => let x := hs t in destruct x eqn:?; try subst; fr_norm
+  | |- ?t <> PFuel => let x := hs t in destruct x eqn:?; try subst; fr_norm
+  | |- ?t = PEof \/ _ => let x := hs t in destruct x eqn:?; try subst; fr_norm
+  end.
+
+Lemma next_rest r :
+  (length (rest (snd (next r))) <= length (rest r))%nat /\
+  match fst (next r) with
+  | Some _ => (length (rest (snd (next r))) < length (rest r))%nat
+  | None => True end.
+Proof.
+  unfold next. destruct (eof r); cbn [fst snd]; [auto|].
+  destruct (rest r) as [|[b|] t]; cbn [fst snd rest length]; split; auto; lia.
+Qed.
+
+Lemma read_hex4_rest n : forall acc r,
+  (length (rest (snd (read_hex4 n acc r))) <= length (rest r))%nat.
+Proof.
+  induction n as [|n IH]; intros acc r; cbn [read_hex4]; [cbn [snd]; lia|].
+  pose proof (next_rest r) as [H _]. destruct (next r) as [[c|] r1]; cbn [fst snd] in *; [|lia].
+  destruct (hex_val c); cbn [snd]; [|lia]. specialize (IH (acc * 16 + n0) r1). lia.
+Qed.
+
+Lemma read_string_f_nofuel fuel : forall acc r,
+  (length (rest r) < fuel)%nat -> fst (read_string_f fuel acc r) <> PFuel.
+Proof.
+  induction fuel as [|f IH]; intros acc r Hf; [lia|]. cbn [read_string_f].
+  pose proof (next_rest r) as [H1 H2]. destruct (next r) as [[c|] r1]; fr_norm; [|discriminate].
+  destruct (c =? 34); fr_norm.
+  { destruct (utf8_decode acc); discriminate. }
+  destruct (c =? 92); fr_norm; [|apply IH; lia].
+  pose proof (next_rest r1) as [H3 H4]. destruct (next r1) as [[e|] r2]; fr_norm; [|discriminate].
+  destruct (e =? 117); fr_norm.
+  - pose proof (read_hex4_rest 4 0 r2) as H5. destruct (read_hex4 4 0 r2) as [[u|] r3]; fr_norm; [|discriminate].
+    destruct (is_scalar u); fr_norm; [apply IH; lia|discriminate].
+  - destruct (assoc_N e escape_table); fr_norm; [apply IH; lia|discriminate].
+Qed.
+
+Lemma read_string_nofuel r : fst (read_string r) <> PFuel.
+Proof. apply read_string_f_nofuel. lia. Qed.
+
+Lemma classify_nofuel a b t : classify_number a b t <> PFuel.
+Proof.
+  unfold classify_number, parse_to_double.
+  repeat match goal with |- context [match ?x with _ => _ end] => destruct x end; discriminate.
+Qed.
+
+Lemma read_number_nofuel r : fst (read_number r) <> PFuel.
+Proof.
+  unfold read_number. repeat g_case; first [discriminate | apply classify_nofuel].
+Qed.
+
+Ltac mn_op2 :=
+  match goal with
+  | |- context [next ?r] => is_var r; mn_pair2 (next r) (next_mono r) (next_strict r)
+  | |- context [peek ?r] => is_var r; mn_pair2 (peek r) (peek_mono r) (peek_live r)
+  | |- context [eat_whitespace ?r] =>
+      is_var r;
+      let H := fresh "M" in pose proof (eat_whitespace_mono r) as H;
+      let r' := fresh "r" in set (r' := eat_whitespace r) in *; clearbody r'; fr_norm
+  | |- context [read_digits ?a ?r] => is_var r; mn_pair (read_digits a r) (read_digits_mono a r)
+  | |- context [read_word ?w ?r] =>
+      is_var r; mn_pair2 (read_word w r) (read_word_mono w r) (read_word_strict w r)
+  | |- context [read_string ?r] =>
+      is_var r; mn_pair3 (read_string r) (read_string_mono r) (read_string_strict r) (read_string_nofuel r)
+  end.
+
+Lemma read_number_mono r : mono r (snd (read_number r)).
+Proof. unfold read_number. repeat first [mn_op2 | g_case]; mn_done. Qed.
+
+Lemma rn_frac_mono neg chars r : mono r (snd (rn_frac neg chars r)).
+Proof. unfold rn_frac, rn_exp. repeat first [mn_op2 | g_case]; mn_done. Qed.
+
+Lemma read_digits_f_S f acc r : read_digits_f (S f) acc r =
+    match peek r with
+    | (Some b, r') => if is_digit b then read_digits_f f (acc ++ [b]) (snd (next r')) else (acc, r')
+    | (None, r') => (acc, r')
+    end.
+Proof. reflexivity. Qed.
+
+Lemma read_digits_f_strict f acc r b : inv r -> cur r = Some b -> is_digit b = true ->
+  (m (snd (read_digits_f (S f) acc r)) < m r)%nat.
+Proof.
+  intros Hi Hc Hd. pose proof (cur_live r b Hi Hc) as He.
+  rewrite read_digits_f_S. unfold peek. rewrite Hc. cbv beta iota zeta. rewrite Hd.
+  pose proof (next_mono r) as M1. pose proof (next_strict r) as M2.
+  pose proof (read_digits_f_mono f (acc ++ [b]) (snd (next r))) as M3. mn_sat. lia.
+Qed.
+
+Lemma read_number_strict r : inv r -> forall b, cur r = Some b ->
+  ((b =? 45) || is_digit b) = true -> (m (snd (read_number r)) < m r)%nat.
+Proof.
+  intros Hi b Hc Hd. pose proof (cur_live r b Hi Hc) as He.
+  rewrite read_number_unf. unfold peek. rewrite Hc. cbv beta iota zeta. cbn [is_b].
+  destruct (b =? 45) eqn:E45; fr_norm.
+  - mn_op2. unfold rn_tail.
+    match goal with |- context [read_digits ?a ?x] => mn_pair (read_digits a x) (read_digits_mono a x) end.
+    destruct o; fr_norm; [|mn_sat; lia].
+    match goal with |- context [rn_frac ?n ?a ?x] => pose proof (rn_frac_mono n a x) end.
+    mn_sat. lia.
+  - cbn [orb] in Hd. unfold rn_tail, read_digits.
+    pose proof (read_digits_f_strict (S (length (rest r))) [] r b Hi Hc Hd) as M1.
+    pose proof (read_digits_f_mono (S (S (length (rest r)))) [] r) as M2.
+    destruct (read_digits_f (S (S (length (rest r)))) [] r) as [chars r1]. fr_norm.
+    pose proof (rn_frac_mono false chars r1). mn_sat. lia.
+Qed.
+
+Ltac mn_op3 :=
+  match goal with
+  | |- context [read_number ?r] =>
+      is_var r; mn_pair3 (read_number r) (read_number_mono r) (read_number_strict r) (read_number_nofuel r)
+  | IH : forall r : reader, mono r (snd (parse_value ?f r)) |- context [parse_value ?f ?r] =>
+      is_var r; mn_pair (parse_value f r) (IH r)
+  | IH : forall acc (r : reader), mono r (snd (parse_items ?f acc r)) |- context [parse_items ?f ?a ?r] =>
+      is_var r; mn_pair (parse_items f a r) (IH a r)
+  | IH : forall acc (r : reader), mono r (snd (parse_members ?f acc r)) |- context [parse_members ?f ?a ?r] =>
+      is_var r; mn_pair (parse_members f a r) (IH a r)
+  end.
+
+Lemma parse_monos : forall fuel,
+  (forall r, mono r (snd (parse_value fuel r))) /\
+  (forall acc r, mono r (snd (parse_items fuel acc r))) /\
+  (forall acc r, mono r (snd (parse_members fuel acc r))).
+Proof.
+  induction fuel as [|f (IHv & IHi & IHm)].
+  - split; [|split]; intros; apply mono_refl.
+  - split; [|split].
+    + intros r. rewrite parse_value_S. fr_norm. repeat first [mn_op2 | mn_op3 | g_case]; mn_done.
+    + intros acc r. rewrite parse_items_S. fr_norm. repeat first [mn_op2 | mn_op3 | g_case]; mn_done.
+    + intros acc r. rewrite parse_members_S. fr_norm. repeat first [mn_op2 | mn_op3 | g_case]; mn_done.
+Qed.
+
+Lemma parse_value_mono fuel r : mono r (snd (parse_value fuel r)).
+Proof. apply parse_monos. Qed.
+Lemma parse_items_mono fuel acc r : mono r (snd (parse_items fuel acc r)).
+Proof. apply parse_monos. Qed.
+Lemma parse_members_mono fuel acc r : mono r (snd (parse_members fuel acc r)).
+Proof. apply parse_monos. Qed.
+
 (* ================= (B) go and run under --on-error=ignore ================= *)
 Lemma emit_app cf p nt a b : emit cf p nt (a ++ b) = emit cf p nt a ++ emit cf p nt b.
 Proof. apply map_app. Qed.
@@ -237,19 +690,130 @@ Proof.
 Qed.
 End Core.
 
+(* a successful or failed parse consumes input *)
+Ltac mn_sat2 :=
+  mn_sat;
+  repeat match goal with
+  | H : inv ?a -> forall b, cur ?a = Some b -> _ = true -> _,
+    Ha : inv ?a, Hc : cur ?a = Some ?b, E : (_ || _) = true |- _ => specialize (H Ha b Hc E)
+  end.
+
+Ltac mn_op4 f :=
+  match goal with
+  | |- context [read_number ?r] =>
+      is_var r; mn_pair3 (read_number r) (read_number_mono r) (read_number_strict r) (read_number_nofuel r)
+  | |- context [parse_items f ?a ?r] => is_var r; mn_pair (parse_items f a r) (parse_items_mono f a r)
+  | |- context [parse_members f ?a ?r] => is_var r; mn_pair (parse_members f a r) (parse_members_mono f a r)
+  end.
+
+Lemma parse_value_strict fuel r : inv r ->
+  fst (parse_value fuel r) = PEof \/ fst (parse_value fuel r) = PFuel \/
+  (m (snd (parse_value fuel r)) < m r)%nat.
+Proof.
+  intros Hi. destruct fuel as [|f]; [right; left; reflexivity|].
+  rewrite parse_value_S. fr_norm.
+  repeat first [mn_op2 | mn_op4 f | g_case];
+    first [left; reflexivity | right; right; mn_sat2; lia].
+Qed.
+
+(* the fuel bounds *)
+Definition NV (f : nat) : Prop :=
+  forall r, inv r -> (2 * m r + 1 <= f)%nat -> fst (parse_value f r) <> PFuel.
+Definition NI (f : nat) : Prop :=
+  forall acc r, inv r -> (2 * m r + 2 <= f)%nat -> fst (parse_items f acc r) <> PFuel.
+Definition NM (f : nat) : Prop :=
+  forall acc r, inv r -> (2 * m r + 2 <= f)%nat -> fst (parse_members f acc r) <> PFuel.
+
+Ltac mn_op5 :=
+  match goal with
+  | |- context [read_number ?r] =>
+      is_var r; mn_pair3 (read_number r) (read_number_mono r) (read_number_strict r) (read_number_nofuel r)
+  | IH : NV ?f |- context [parse_value ?f ?r] =>
+      is_var r; mn_pair2 (parse_value f r) (parse_value_mono f r) (IH r)
+  | IH : NI ?f |- context [parse_items ?f ?a ?r] =>
+      is_var r; mn_pair2 (parse_items f a r) (parse_items_mono f a r) (IH a r)
+  | IH : NM ?f |- context [parse_members ?f ?a ?r] =>
+      is_var r; mn_pair2 (parse_members f a r) (parse_members_mono f a r) (IH a r)
+  end.
+
+Ltac nf_done :=
+  first [ discriminate
+        | assumption
+        | match goal with
+          | H : inv ?a -> (_ <= _)%nat -> ?p <> PFuel |- ?p <> PFuel =>
+              apply H; [mn_sat; assumption | mn_sat; lia]
+          end ].
+
+Lemma parse_nofuel : forall f, NV f /\ NI f /\ NM f.
+Proof.
+  induction f as [|f (IHv & IHi & IHm)].
+  - split; [|split]; intro; intros; lia.
+  - split; [|split].
+    + intros r Hi Hb. rewrite parse_value_S. fr_norm.
+      repeat first [mn_op2 | mn_op5 | g_case]; nf_done.
+    + intros acc r Hi Hb. rewrite parse_items_S. fr_norm.
+      repeat first [mn_op2 | mn_op5 | g_case]; nf_done.
+    + intros acc r Hi Hb. rewrite parse_members_S. fr_norm.
+      repeat first [mn_op2 | mn_op5 | g_case]; nf_done.
+Qed.
+
+Lemma parse_fuel_m r : (2 * m r + 1 <= parse_fuel r)%nat.
+Proof. unfold m, parse_fuel. destruct (eof r); lia. Qed.
+
+Lemma next_json_value_nofuel r : inv r -> fst (next_json_value r) <> PFuel.
+Proof. intros Hi. apply (proj1 (parse_nofuel (parse_fuel r))); [assumption|apply parse_fuel_m]. Qed.
+
+(* the pipeline-free loop is never stopped by fuel when the source has no read error *)
+Lemma read_ctxs_no_stop : forall fuel oo r fname idx infile,
+  inv r -> no_eerr r -> io r = false -> (m r + 1 <= fuel)%nat ->
+  snd (read_ctxs fuel oo r fname idx infile) = false.
+Proof.
+  induction fuel as [|f IH]; intros oo r fname idx infile Hi Hn Hio Hf; [lia|].
+  cbn [read_ctxs]. cbv zeta.
+  pose proof (next_json_value_nofuel r Hi) as Hnf.
+  pose proof (parse_value_strict (parse_fuel r) r Hi) as Hst.
+  pose proof (parse_value_mono (parse_fuel r) r Hi) as [Hi1 Hm1].
+  change (parse_value (parse_fuel r) r) with (next_json_value r) in *.
+  destruct (next_json_value r) as [res r1] eqn:E. cbn [fst snd] in *.
+  destruct (next_json_value_clean r res r1 Hn Hio E) as [Hn1 Hio1]. rewrite Hio1.
+  destruct res as [v| | |].
+  - assert (Hlt : (m r1 < m r)%nat) by (destruct Hst as [H|[H|H]]; [discriminate|discriminate|exact H]).
+    destruct (oo && negb (is_container v)).
+    + apply IH; auto. lia.
+    + specialize (IH oo r1 fname (idx + 1) (infile + 1) Hi1 Hn1 Hio1).
+      destruct (read_ctxs f oo r1 fname (idx + 1) (infile + 1)) as [[cs e] b]. cbn [snd] in *.
+      apply IH. lia.
+  - reflexivity.
+  - assert (Hlt : (m r1 < m r)%nat) by (destruct Hst as [H|[H|H]]; [discriminate|discriminate|exact H]).
+    specialize (IH oo r1 fname idx infile Hi1 Hn1 Hio1).
+    destruct (read_ctxs f oo r1 fname idx infile) as [[cs e] b]. cbn [snd] in *.
+    apply IH. lia.
+  - congruence.
+Qed.
+
+Lemma ctxs_of_input_no_stop cf fname evs : Forall (fun e => e <> EErr) evs ->
+  snd (ctxs_of_input cf fname evs) = false.
+Proof.
+  intros H. unfold ctxs_of_input. apply read_ctxs_no_stop.
+  - intros E. discriminate E.
+  - exact H.
+  - reflexivity.
+  - unfold m, input_fuel, mk_reader. cbn [eof rest]. lia.
+Qed.
+
 Theorem go_run_ignore : forall (cf : cfg) (fname : option str) (evs : list ev) (b : bool) p sts hdr,
   c_on_error cf = OnIgnore ->
   Forall (fun e => e <> EErr) evs ->
   build_pipeline cf = Some (p, sts) ->
   start_output p (titles expr sts []) (c_rowsep cf) = Some hdr ->
-  snd (ctxs_of_input cf fname evs) = false ->
   let cs := fst (fst (ctxs_of_input cf fname evs)) in
   g_result (go cf [(fname, evs)] b) = GOk /\
   g_events (go cf [(fname, evs)] b) =
     (match hdr with [] => [] | _ => [OOut hdr] end) ++
     emit cf p (length (titles expr sts [])) (Chain.run expr get sts (map (init_state expr) sts) cs).
 Proof.
-  intros cf fname evs b p sts hdr Hign Hevs Hbp Hst Hnb cs. subst cs.
+  intros cf fname evs b p sts hdr Hign Hevs Hbp Hst cs. subst cs.
+  pose proof (ctxs_of_input_no_stop cf fname evs Hevs) as Hnb.
   unfold go. rewrite Hbp. cbv zeta. rewrite Hst. cbn [read_files].
   unfold ctxs_of_input in *.
   destruct (read_input_run cf p sts (length (titles expr sts [])) Hign (input_fuel evs) (mk_reader evs)
@@ -325,7 +889,6 @@ Proof.
   - assert (Hc : ctxs_of_input default_cfg None (map EB bs) = (cs, 0, false)) by exact E.
     destruct (go_run_ignore default_cfg None (map EB bs) true (PJson OneLine false) [] []
                 eq_refl (no_eerr_bytes bs) default_pipeline eq_refl) as [H1 H2].
-    { rewrite Hc. reflexivity. }
     split; [exact H1|]. rewrite H2, Hc. cbn [fst app titles length map]. rewrite run_nil.
     unfold emit. rewrite <- Hin, map_map. apply map_ext_in. intros c Hc'.
     rewrite Forall_forall in Hres. specialize (Hres c Hc').
